@@ -612,7 +612,7 @@ def configure(m, prop):
             step = 1024
             for lo in range(0, 0x10000, step):
                 items.append(("index", lo, lo + step, subs[(lo // step) % 2] if q else (0, 1, 2, 3, 7, 128, 255)))
-            items += [("matrix", i, 40 if q else 400) for i in range(16 if q else 64)]
+            items += [("matrix", i, 40 if q else 400) for i in range(16 if q else 256)]
             for st in STATES:
                 for c0 in range(0, 256, 32 if q else 16):
                     items.append(("sweep", st, c0, 32 if q else 16))
@@ -641,7 +641,7 @@ def configure(m, prop):
 
         def plan(tier, seed):
             q = tier == "quick"
-            return [("probe", i, 40 if q else 150) for i in range(96 if q else 2000)]
+            return [("probe", i, 40 if q else 150) for i in range(96 if q else 8000)]
         m.plan = plan
 
         def finish(total, tier):
